@@ -185,7 +185,7 @@ def run(ctx):
             kind = kinds[i % len(kinds)]
             lo = G.snap(rnd.uniform(-10, 5), 1)
             hi = G.snap(lo + rnd.choice([1.0, 2.5, 10.0, 0.5, 100.0]), 1)
-            spec = G.shape_term(rnd, "t", lo, hi, kind=kind, d=rnd.choice([1, 3, 6]), degenerate=False)
+            spec = G.shape_term(rnd, "t", lo, hi, kind=kind, d=rnd.choice([1, 3, 6]), degenerate=False, free_height=True)
             term = G.build_term(fl, spec)
             ys = y_values(rnd, spec["height"])
             form = i // len(kinds) % 3
